@@ -145,6 +145,17 @@ def gen_cases(ctx):
         size = min(2 ** n, rng.choice([1, 2, 3, 5, 8, 2 ** n, max(1, 2 ** n - 1), rng.randint(1, 2 ** n)]))
         sub = rng.sample(range(2 ** n), size)
         cases.append((n, [(format(k, "b").zfill(n), rng.choice([rng.randint(0, 99), rng.random()])) for k in sub]))
+    # long registers, sparse tables whose mirrored keys differ only in their LAST characters (read as decimal numbers they agree in
+    # the first 16 digits): the all-ones outcome and its neighbours, inserted in descending / shuffled order
+    for n in ([18, 19, 20] if ctx.thorough else [18]):
+        for rep in range(2 if ctx.thorough else 1):
+            ones = "1" * n
+            near = [ones[:-1] + "0", ones[:-2] + "01", ones[:-2] + "00", ones[:-3] + "011", "1" + "0" * (n - 1), "0" * (n - 1) + "1"]
+            mirrored = [ones] + rng.sample(near, rng.randint(2, 5)) + [format(rng.randrange(2 ** n), "b").zfill(n) for _ in range(3)]
+            mirrored = sorted(set(mirrored), reverse=(rep == 0))
+            if rep:
+                rng.shuffle(mirrored)
+            cases.append((n, [(k[::-1], i + 1) for i, k in enumerate(mirrored)]))
     return cases
 
 
